@@ -48,7 +48,8 @@ theorem pack_existing_alive {w : WM} {iss : List Handle} {s : WS} (hi : Inv ⟨w
     rw [setMarked_setCtl _ _ _ _ hctl.lockDepth hctl.buffers]
   -- the finish itself
   have hfin0 : packFinish info first.entity false (w.arch pi).mask (w.arch pi).shared (w, pf, []) =
-      packLoops info first.entity false (w.arch pi).mask pf (w.getArch pf.final (w.arch pi).shared).2
+      packLoops info first.entity false (w.arch pi).mask pf
+        (packTarget first.entity false (w.arch pi).mask (w.arch pi).shared w pf).2
         (packMoved info first.entity false (w.arch pi).mask (w.arch pi).shared w pf).1
         (packMoved info first.entity false (w.arch pi).mask (w.arch pi).shared w pf).2 [] := by
     rw [packFinish_eq, hpd]; rfl
@@ -59,10 +60,10 @@ theorem pack_existing_alive {w : WM} {iss : List Handle} {s : WS} (hi : Inv ⟨w
   rw [← hfin0] at hmX hksX hcbX
   generalize hXdef : (packFinish info first.entity false (w.arch pi).mask (w.arch pi).shared (w, pf, [])).1 = X at *
   generalize hCdef : (packFinish info first.entity false (w.arch pi).mask (w.arch pi).shared (w, pf, [])).2 = C at *
-  generalize htidef : (w.getArch pf.final (w.arch pi).shared).2 = ti at *
   have hshin : SharedIn w.pool (w.arch pi).shared := hi.shared _ (arch_mem hpi)
-  have hinvX : Inv ⟨X, iss⟩ :=
-    moved_inv (m := pf.final) (sh := (w.arch pi).shared) hi hv hshin hmX (hks1.trans hksX)
+  have hAK := allKeys_packTarget hi first.entity false (w.arch pi).mask (w.arch pi).shared hshin pf
+  generalize htidef : (packTarget first.entity false (w.arch pi).mask (w.arch pi).shared w pf).2 = ti at *
+  have hinvX : Inv ⟨X, iss⟩ := moved_inv' hi hv hAK hmX (hks1.trans hksX)
   have hpoolX : X.pool = w.pool := hmX.same.pool
   have htilt : ti < X.archs.length := by rcases hmX.here with ⟨n, _, hr'⟩; exact lt_of_row hr'
   have hshX : SharedIn w.pool (X.arch ti).shared := by
